@@ -531,7 +531,8 @@ pub fn finish(ctx: &Ctx, rep: Report) -> i32 {
         "wall_s": wall,
         "violations": if failure.is_some() { 1 } else { 0 },
     });
-    let dir = ctx.verif_root.join("evidence");
+    // (tools/sweep_seeds.sh runs the checks against seeded changes: those runs must not overwrite the evidence)
+    let dir = std::env::var("VERIF_EVIDENCE_DIR").map(PathBuf::from).unwrap_or_else(|_| ctx.verif_root.join("evidence"));
     let _ = std::fs::create_dir_all(&dir);
     std::fs::write(dir.join(format!("{}.json", ctx.property)), serde_json::to_vec_pretty(&ev).unwrap()).expect("write evidence");
     for (sig, what) in &known_lines {
